@@ -250,6 +250,7 @@ def cfg_key(cfg):
 def build_sim(rb, cfg):
     """construct the simulation of a configuration (before any step)"""
     sim = rb.Simulation()
+    sim.rand_seed = 20240930      # reb_simulation_init seeds from the clock; twins must be comparable
     system = cfg.get("system", "planets")
     integ = cfg["integrator"]
     sim.integrator = integ
@@ -370,3 +371,38 @@ def attach(sim, cfg):
 def advance(sim, n):
     if n:
         sim.steps(n)
+
+
+def apply_ops(sim, ops):
+    """structural / parameter operations of a history (applied identically to original and restored)"""
+    for op in ops:
+        if op == "remove_last":
+            sim.remove(index=sim.N - 1)
+        elif op == "remove_mid":
+            sim.remove(index=1)
+        elif op == "add":
+            sim.add(m=1e-5, x=3.7, y=0.1, vy=0.52, r=0.001)
+        elif op == "add2":
+            sim.add(m=2e-5, x=-4.4, vy=-0.47, vz=0.01, r=0.001)
+        elif op == "mass":
+            sim.particles[1].m *= 1.001
+        elif op == "dt":
+            sim.dt *= 0.5
+        elif op == "reset":
+            sim.reset_integrator()
+        elif op == "sync":
+            sim.synchronize()
+        elif op == "addvar":
+            sim.add_variation()
+        elif op.startswith("switch:"):
+            sim.integrator = op.split(":")[1]
+        elif op.startswith("steps:"):
+            sim.steps(int(op.split(":")[1]))
+        else:
+            raise ValueError(op)
+
+
+PRE_OPS = [[], ["remove_last"], ["remove_last", "steps:2"], ["add", "steps:2", "remove_last"], ["remove_mid", "steps:1"],
+           ["add", "steps:3"], ["reset"], ["switch:leapfrog", "steps:2"], ["switch:ias15", "steps:2", "remove_last"], ["sync"]]
+POST_OPS = [[], ["add"], ["remove_last"], ["mass"], ["dt"], ["add", "add2"], ["remove_last", "add"], ["switch:leapfrog"],
+            ["switch:ias15"], ["switch:whfast"], ["reset"], ["sync"], ["add", "mass", "dt"]]
